@@ -513,6 +513,7 @@ def main(tier):
     return run_property(
         PROP, "checks.c02", tier, "translation_validation",
         assumptions=[
+            "added families: a cumulative worker as an alternative of 2-4 selections; a worker required twice by one task (rejected, or every requirement holds); 2-3 shared workers with mixed static / delayed / dynamic assignments; class-generic contexts: capacity, spans and selection counts of a concrete problem next to each of the 35 constraint classes in 2 (thorough 4) roles",
             "capacity is checked at one symbolic instant tau >= 0 that is free in the query, i.e. for all instants",
             "delay_in / early_out >= 0 (negative shifts are not meaningful inputs)",
             "productivities symbolic in [0, 8] (nonlinear products) and on a concrete grid; selection counts enumerated 1..m+1",
